@@ -2,6 +2,8 @@
 import contextvars
 import functools
 import inspect
+import sys
+import threading
 from typing import (
     Callable,
     Any,
@@ -654,10 +656,34 @@ def resolve_kwdefaults(sign: inspect.Signature) -> Dict[str, Any]:
 # This flag is used to avoid recursively checking contracts for the same function or instance while
 # contract checking is already in progress.
 #
-# The key refers to the id() of the function (preconditions and postconditions) or instance (invariants).
+# The key refers to the thread and the asyncio task which are checking (see ``_current_flow``) and to the id() of
+# the function (preconditions and postconditions) or instance (invariants).
 _IN_PROGRESS = contextvars.ContextVar(
     "_IN_PROGRESS", default=None
-)  # type: contextvars.ContextVar[Optional[FrozenSet[int]]]
+)  # type: contextvars.ContextVar[Optional[FrozenSet[Tuple[Tuple[int, int], int]]]]
+
+
+def _current_flow() -> Tuple[int, int]:
+    """
+    Identify the thread and the asyncio task (if any) in which the caller is running.
+
+    A task or a thread started *while* a contracted call is in flight (*e.g.*, a worker started in a method)
+    runs in a copy of the context of that call and thus inherits its in-progress marks. The marks are therefore
+    keyed on the flow of control which made them: only the re-entrant calls of the very same flow must not be checked,
+    while the inherited marks of the other flows are not ours to honour (nor to remove).
+    """
+    task = None  # type: Optional[Any]
+
+    # A program which has not imported asyncio can not be running in an asyncio task.
+    asyncio_module = sys.modules.get("asyncio", None)
+    if asyncio_module is not None:
+        try:
+            task = asyncio_module.current_task()
+        except RuntimeError:
+            # There is no running event loop in this thread.
+            task = None
+
+    return (threading.get_ident(), 0 if task is None else id(task))
 
 
 def decorate_with_checker(func: CallableT) -> CallableT:
@@ -705,7 +731,7 @@ def decorate_with_checker(func: CallableT) -> CallableT:
     # Determine the default argument values
     kwdefaults = resolve_kwdefaults(sign=sign)
 
-    id_func = id(func)
+    id_of_func = id(func)
 
     # (mristin, 2021-02-16)
     # Admittedly, this branching on sync/async is absolutely monstrous.
@@ -732,6 +758,8 @@ def decorate_with_checker(func: CallableT) -> CallableT:
             in_progress = _IN_PROGRESS.get()
             if in_progress is None:
                 in_progress = frozenset()
+
+            id_func = (_current_flow(), id_of_func)
 
             # If the wrapper is already checking the contracts for the wrapped function, avoid a recursive loop
             # by skipping any subsequent contract checks for the same function.
@@ -820,6 +848,8 @@ def decorate_with_checker(func: CallableT) -> CallableT:
             in_progress = _IN_PROGRESS.get()
             if in_progress is None:
                 in_progress = frozenset()
+
+            id_func = (_current_flow(), id_of_func)
 
             # If the wrapper is already checking the contracts for the wrapped function, avoid a recursive loop
             # by skipping any subsequent contract checks for the same function.
@@ -1088,7 +1118,7 @@ def _decorate_with_invariants(func: CallableT, is_init: bool) -> CallableT:
             if in_progress is None:
                 in_progress = frozenset()
 
-            id_instance = id(instance)
+            id_instance = (_current_flow(), id(instance))
             if id_instance in in_progress:
                 # This constructor was called from the constructor of a derived class (``super().__init__(...)``)
                 # or from another operation on the instance which is still in progress: the object is not yet
@@ -1152,7 +1182,7 @@ def _decorate_with_invariants(func: CallableT, is_init: bool) -> CallableT:
 
                 # The following dunder indicates whether another invariant is currently being checked. If so,
                 # we need to suspend any further invariant check to avoid endless recursion.
-                id_instance = id(instance)
+                id_instance = (_current_flow(), id(instance))
                 if id_instance not in in_progress:
                     _IN_PROGRESS.set(in_progress | {id_instance})
                 else:
@@ -1206,7 +1236,7 @@ def _decorate_with_invariants(func: CallableT, is_init: bool) -> CallableT:
                 if in_progress is None:
                     in_progress = frozenset()
 
-                id_instance = id(instance)
+                id_instance = (_current_flow(), id(instance))
                 if id_instance not in in_progress:
                     _IN_PROGRESS.set(in_progress | {id_instance})
                 else:
